@@ -510,4 +510,22 @@ example :
     layoutConvert 0 vars = [(0, 2), (2, 1)] ∧ layoutUpdate 0 0 vars = [(0, 2), (2, 2)] ∧
       setBound id vars = .error .value := by decide
 
+/-! ## history: a problem is a function of the declaration only -/
+
+/-- **History independence.**  In the model `_set_bound` (and with it the optimiser's box, the
+conversion and the assignment) is a *function of the declaration*: however many problems are built
+one after the other from the same declaration — re-running `pyxel.run_mode` on a loaded
+configuration — each gets the box of the first.  A functional model cannot express the other half
+of this, namely that building a problem does not *overwrite* the caller's `ParameterValues`
+(e.g. an in-place `log10` on a view of `boundaries`): that half is tied to the code by the
+harness's **history stream**, which builds several problems / runs several calibrations from the
+same `ParameterValues` objects, judges each against the original declaration (all theorems above
+then apply to every round) and compares the objects before and after. -/
+theorem setBound_history_independent (lg : K → K) (vars : List (Var K)) (n : Nat) :
+    (List.replicate n vars).map (setBound lg) = List.replicate n (setBound lg vars) := by
+  simp
+
+example : (List.replicate 3 exVars).map (setBound toyLogExp.log10) =
+    List.replicate 3 (.ok ([3, 93, 0, -2, -2, -2], [13, 193, 5, 2, 2, 2])) := by decide
+
 end PyxelModel.C10
